@@ -968,7 +968,8 @@ class ListBox(Widget, WidgetContainerMixin):
             0,
         )
 
-        self.shift_focus((maxcol, maxrow), rtop)
+        # a focus widget without rows would otherwise be placed below the last row
+        self.shift_focus((maxcol, maxrow), min(rtop, maxrow - 1))
 
     def _set_focus_first_selectable(self, size: tuple[int, int], focus: bool) -> None:
         """Choose the first visible, selectable widget below the current focus as the focus widget."""
@@ -1043,7 +1044,8 @@ class ListBox(Widget, WidgetContainerMixin):
         if coming_from == "below":
             offset = 0
         elif coming_from == "above":
-            offset = maxrow - rows
+            # a focus widget without rows would otherwise be placed below the last row
+            offset = min(maxrow - rows, maxrow - 1)
         else:
             offset = (maxrow - rows) // 2
         self.shift_focus((maxcol, maxrow), offset)
